@@ -87,17 +87,27 @@ def build(targets=None):
         if rc != 0:
             info["log"] += out[-6000:]
         info["failed_files"] = sorted(set(re.findall(r'File "\./([^"]+)", line', out))) if rc != 0 else []
-        # OCaml driver
-        drv = os.path.join(OCAML, "driver")
-        srcs = [os.path.join(OCAML, f) for f in ("model.ml", "driver.ml")]
-        if all(os.path.exists(s) for s in srcs):
-            if not os.path.exists(drv) or os.path.getmtime(drv) < max(os.path.getmtime(s) for s in srcs):
-                rc2, out2 = sh("ocamlfind ocamlopt -O2 -w -a model.mli model.ml driver.ml -o driver", cwd=OCAML, timeout=600)
-                info["ocaml_ok"] = rc2 == 0
-                if rc2 != 0:
-                    info["log"] += out2[-3000:]
-        else:
-            info["ocaml_ok"] = False
+        # OCaml drivers: ocaml/driver.ml (+model.ml) and per-property ocaml/driver_<id>.ml (+model_<id>.ml)
+        import glob
+        pairs = [("driver", "model")]
+        for d in sorted(glob.glob(os.path.join(OCAML, "driver_*.ml"))):
+            suf = os.path.basename(d)[len("driver_"):-3]
+            pairs.append(("driver_" + suf, "model_" + suf))
+        if os.path.exists(os.path.join(OCAML, "jitdriver.ml")):
+            pairs.append(("jitdriver", "jitmodel"))
+        for drv_name, mod_name in pairs:
+            drv = os.path.join(OCAML, drv_name)
+            srcs = [os.path.join(OCAML, mod_name + ".ml"), os.path.join(OCAML, drv_name + ".ml")]
+            if all(os.path.exists(s_) for s_ in srcs):
+                if not os.path.exists(drv) or os.path.getmtime(drv) < max(os.path.getmtime(s_) for s_ in srcs):
+                    rc2, out2 = sh(f"ocamlfind ocamlopt -O2 -w -a {mod_name}.mli {mod_name}.ml {drv_name}.ml -o {drv_name}", cwd=OCAML, timeout=900)
+                    if rc2 != 0:
+                        info.setdefault("ocaml_failed", []).append(drv_name)
+                        info["log"] += out2[-3000:]
+            elif drv_name == "driver":
+                info.setdefault("ocaml_failed", []).append(drv_name)
+        info.setdefault("ocaml_failed", [])
+        info["ocaml_ok"] = not info["ocaml_failed"]
     info["build_s"] = round(time.time() - t0, 2)
     return info
 
@@ -138,8 +148,8 @@ def hygiene():
 
 # --------------------------------------------------------------------------------------
 # model runner (extracted OCaml)
-def run_model(lines, chunk=200000):
-    drv = os.path.join(OCAML, "driver")
+def run_model(lines, chunk=200000, driver="driver"):
+    drv = os.path.join(OCAML, driver)
     out = []
     for i in range(0, len(lines), chunk):
         part = lines[i:i + chunk]
